@@ -36,6 +36,8 @@ type Config struct {
 	Child    int     `json:"child"`     // sweep: every n-th position also probes from a child process (0 = never)
 	Probe    *ProbeCfg `json:"probe,omitempty"`
 	Program  *Program  `json:"program,omitempty"` // replay: the program to run sequentially
+	Conc     *ConcCfg  `json:"conc,omitempty"`
+	BackendOut string  `json:"backend_out,omitempty"` // also record the backend-call trace (SopCommitTrace)
 }
 
 func main() {
@@ -59,6 +61,8 @@ func main() {
 		runFault(cfg)
 	case "replay":
 		runReplay(cfg)
+	case "conc":
+		runConc(cfg)
 	case "sweep":
 		runSweep(cfg)
 	case "probe":
@@ -75,11 +79,13 @@ func runSeq(cfg Config) {
 	rnd := rand.New(rand.NewSource(cfg.Seed))
 	tf := NewTraceFile(cfg.Out)
 	defer tf.Close()
+	bf := NewBTraceFile(cfg.BackendOut)
+	defer bf.Close()
 	for i := 0; i < cfg.Programs; i++ {
 		p := GenProgram(rnd, cfg.Gen, i)
 		folder := filepath.Join(cfg.Data, fmt.Sprintf("p%d", i))
 		env := sopenv.New(folder, decor.NewHub())
-		env.Hub.Record = false
+		env.Hub.Record = bf != nil
 		r := &Runner{Env: env, Rec: &Recorder{}, MaxTime: time.Duration(envInt("VERIF_MAXTIME_MS", 120000)) * time.Millisecond}
 		for ti, spec := range p.Txns {
 			if _, err := r.RunTxn(ctx, fmt.Sprintf("t%d", ti+1), &p, spec, nil); err != nil {
@@ -92,6 +98,7 @@ func runSeq(cfg Config) {
 			}
 		}
 		tf.Write(fmt.Sprintf("p%d", i), r.Rec.Take(), map[string]any{"program": p, "folder": folder})
+		bf.Write(fmt.Sprintf("p%d", i), env.Hub.Take(), map[string]any{"program": p})
 		if os.Getenv("VERIF_KEEP_DATA") == "" {
 			os.RemoveAll(folder)
 		}
